@@ -25,6 +25,7 @@ import (
 	"strconv"
 	"strings"
 	"sync"
+	"sync/atomic"
 	"time"
 
 	"github.com/google/martian/v3"
@@ -234,6 +235,9 @@ type c15Case struct {
 	// only the snapshot clauses are judged then (net/http forwards such trailers
 	// only if the body was read before forwarding).
 	Undeclared bool `json:"undeclared_trailers,omitempty"`
+	// RoundTrip: in a skip case the context is also marked SkipRoundTrip, "before"
+	// or "after" the SkipLogging mark (modifiers set their marks independently).
+	RoundTrip string `json:"skip_round_trip_mark,omitempty"`
 }
 
 func caseOf(driver, stream string, idx int) c15Case {
@@ -245,6 +249,9 @@ func caseOf(driver, stream string, idx int) c15Case {
 	c.CloseErr = (idx/(2*len(cfgs)))%5 == 3
 	c.ReadErr = (idx/(2*len(cfgs)))%5 == 1
 	c.Between = c.Skip && c.Resp && !c.API
+	if c.Skip {
+		c.RoundTrip = [...]string{"", "after", "before"}[(idx/len(cfgs))%3]
+	}
 	c.Undeclared = c.Cfg.Logger == "mv" && c.Cfg.Opt != "skipbody" && (idx/(2*len(cfgs)))%2 == 0
 	if !c.Resp {
 		c.Rewrite = [...]string{"", "", "", "", "origin-form", "path-query", "host-scheme", "all"}[(idx/(2*len(cfgs)))%8]
@@ -489,10 +496,16 @@ func (t *twin) one(r *vh.Run, c c15Case) {
 	}
 	defer remove()
 	markSkip := func() {
+		if c.RoundTrip == "before" {
+			ctx.SkipRoundTrip()
+		}
 		if c.API {
 			ctx.APIRequest()
 		}
 		ctx.SkipLogging()
+		if c.RoundTrip == "after" {
+			ctx.SkipRoundTrip()
+		}
 	}
 	between := c.Between && c.Resp && c.Cfg.Logger != "mv"
 	if c.Skip && !between {
@@ -727,7 +740,7 @@ func (t *twin) one(r *vh.Run, c c15Case) {
 				viol("C15:skip-logging:marbl.Modifier", fmt.Sprintf("exchange marked SkipLogging produced %d marbl frames", n))
 			}
 		}
-		r.Class(fmt.Sprintf("skip-logging|%s|api=%v|marked-between=%v", c.Cfg.Logger, c.API, between))
+		r.Class(fmt.Sprintf("skip-logging|%s|api=%v|marked-between=%v|skip-round-trip=%s", c.Cfg.Logger, c.API, between, c.RoundTrip))
 	} else {
 		switch c.Cfg.Logger {
 		case "text":
@@ -1669,6 +1682,252 @@ func runSink(r *vh.Run, k int) {
 }
 
 // ---------------------------------------------------------------------------
+// interleaved exchanges: one body is still open while another exchange passes
+
+// gatedBody delivers the first part of a body, then blocks until the gate is
+// opened (a response that is still streaming, a long poll), then the rest.
+type gatedBody struct {
+	data    []byte
+	off     int
+	holdAt  int
+	gate    chan struct{}
+	arrived chan struct{} // closed when a reader is waiting at the gate
+	once    sync.Once
+}
+
+func (g *gatedBody) Read(p []byte) (int, error) {
+	if g.off >= len(g.data) {
+		return 0, io.EOF
+	}
+	if g.off >= g.holdAt {
+		g.once.Do(func() { close(g.arrived) })
+		<-g.gate
+	}
+	end := len(g.data)
+	if g.off < g.holdAt {
+		end = g.holdAt
+	}
+	n := copy(p, g.data[g.off:end])
+	g.off += n
+	return n, nil
+}
+
+func (g *gatedBody) Close() error { return nil }
+
+type gateCase struct {
+	Kind   string `json:"kind"` // c15g
+	Stream string `json:"stream"`
+	Idx    int    `json:"idx"`
+	Cfg    logCfg `json:"cfg"`
+}
+
+// interleaved: exchange 1's response body is held open by the harness until
+// exchange 2 has passed the same logger. A logger that makes exchange 2 wait
+// for exchange 1's body never lets it be forwarded: decided by quiescence.
+func interleaved(r *vh.Run, e *env, c gateCase) (stuck bool) {
+	rng := r.Rng(c.Stream, c.Idx)
+	r.Eval(1)
+	o := msgx.GenOpts{Rich: true, NoBig: true, MaxSize: 5000, Key: fmt.Sprintf("g%d", c.Idx)}
+	req1 := msgx.GenRequest(rng, o)
+	var s1 *msgx.Spec
+	for {
+		s1 = msgx.GenResponse(rng, o, "GET")
+		if !s1.NoWire && s1.Framing != "chunked" && len(s1.WireBody()) >= 2 {
+			break
+		}
+	}
+	o.Key += "b"
+	req2 := msgx.GenRequest(rng, o)
+	s2 := req2
+	if rng.Intn(2) == 0 {
+		s2 = msgx.GenResponse(rng, o, req2.Method)
+	}
+	witness := map[string]interface{}{"logger": c.Cfg, "exchange_1_response": msgx.Excerpt(s1.Wire(), 300), "exchange_2_message": msgx.Excerpt(s2.Wire(), 300)}
+	inconc := func(why string) {
+		r.SetCase(c)
+		r.Inconclusive(why, witness)
+	}
+	sig := "C15:forwarded-identical:" + c.Cfg.Logger + "+interleaved"
+
+	// twins of exchange 1's response; B's body is gated
+	r1A, r1B := stubRequest("GET", req1.Target), stubRequest("GET", req1.Target)
+	res1A, err := http.ReadResponse(bufio.NewReader(bytes.NewReader(s1.Wire())), r1A)
+	if err != nil {
+		inconc("net/http rejected a generated response: " + err.Error())
+		return
+	}
+	res1B, _ := http.ReadResponse(bufio.NewReader(bytes.NewReader(s1.Wire())), r1B)
+	gb := &gatedBody{data: s1.WireBody(), holdAt: 1 + rng.Intn(len(s1.WireBody())-1), gate: make(chan struct{}), arrived: make(chan struct{})}
+	res1B.Body = gb
+	var gateOnce sync.Once
+	openGate := func() { gateOnce.Do(func() { close(gb.gate) }) }
+	defer openGate()
+	_, rm1, err := martian.TestContext(r1B, nil, nil)
+	if err != nil {
+		inconc("martian.TestContext: " + err.Error())
+		return
+	}
+	defer rm1()
+
+	// exchange 2
+	var q2A, q2B *http.Request
+	var p2A, p2B *http.Response
+	if !s2.Resp {
+		if q2A, err = http.ReadRequest(bufio.NewReader(bytes.NewReader(s2.Wire()))); err != nil {
+			inconc("net/http rejected a generated request: " + err.Error())
+			return
+		}
+		q2B, _ = http.ReadRequest(bufio.NewReader(bytes.NewReader(s2.Wire())))
+	} else {
+		q2A, q2B = stubRequest(s2.Method, req2.Target), stubRequest(s2.Method, req2.Target)
+		if p2A, err = http.ReadResponse(bufio.NewReader(bytes.NewReader(s2.Wire())), q2A); err != nil {
+			inconc("net/http rejected a generated response: " + err.Error())
+			return
+		}
+		p2B, _ = http.ReadResponse(bufio.NewReader(bytes.NewReader(s2.Wire())), q2B)
+	}
+	_, rm2, err := martian.TestContext(q2B, nil, nil)
+	if err != nil {
+		inconc("martian.TestContext: " + err.Error())
+		return
+	}
+	defer rm2()
+
+	hl := newHAR(c.Cfg.Opt)
+	tl := martianlog.NewLogger()
+	if c.Cfg.Logger == "text" {
+		tl.SetDecode(c.Cfg.Opt[3] == '1')
+	}
+	tl.SetLogFunc(func(string) {})
+	logReq := func(q *http.Request) error {
+		switch c.Cfg.Logger {
+		case "har":
+			return hl.ModifyRequest(q)
+		case "text":
+			return tl.ModifyRequest(q)
+		}
+		return e.marbl.ModifyRequest(q)
+	}
+	logRes := func(p *http.Response) error {
+		switch c.Cfg.Logger {
+		case "har":
+			return hl.ModifyResponse(p)
+		case "text":
+			return tl.ModifyResponse(p)
+		}
+		return e.marbl.ModifyResponse(p)
+	}
+	var events int64
+	activity := func() string { return fmt.Sprintf("events=%d gate-off=%d", atomic.LoadInt64(&events), gb.off) }
+
+	// exchange 1: request, then the response whose body stays open
+	var err1 error
+	done1 := make(chan struct{})
+	go func() {
+		defer close(done1)
+		if err1 = logReq(r1B); err1 == nil {
+			atomic.AddInt64(&events, 1)
+			err1 = logRes(res1B)
+		}
+		atomic.AddInt64(&events, 1)
+	}()
+	select {
+	case <-gb.arrived: // the logger is reading the open body
+		r.Class("interleaved|" + c.Cfg.Logger + "/" + c.Cfg.Opt + "|body-open-in-logger")
+	case <-done1: // this configuration does not read the body while logging
+		r.Class("interleaved|" + c.Cfg.Logger + "/" + c.Cfg.Opt + "|body-not-read-by-logger")
+	}
+	// exchange 2 must pass the logger although exchange 1's body is still open
+	var err2 error
+	done2 := make(chan struct{})
+	go func() {
+		defer close(done2)
+		if s2.Resp {
+			if err2 = logReq(q2B); err2 == nil {
+				err2 = logRes(p2B)
+			}
+		} else {
+			err2 = logReq(q2B)
+		}
+		atomic.AddInt64(&events, 1)
+	}()
+	out, fp := awaitCall(func() { <-done2 }, activity)
+	if out != vh.Happened {
+		// let both exchanges run to their end before their contexts are removed
+		openGate()
+		awaitCall(func() { <-done1; <-done2 }, activity)
+	}
+	switch out {
+	case vh.Stuck:
+		witness["quiescent_state"] = fp
+		r.ViolationCase(c, sig, fmt.Sprintf("%s (%s): while the response body of one exchange is still open, another exchange never gets through the logger (it would not be forwarded before the first body ends, if ever)", c.Cfg.Logger, c.Cfg.Opt), witness)
+		return true
+	case vh.Undecided:
+		inconc("watchdog fired while a second exchange was passing the logger")
+		return
+	}
+	openGate()
+	if out, _ := awaitCall(func() { <-done1 }, activity); out != vh.Happened {
+		inconc("exchange 1 did not finish after its body was released")
+		return
+	}
+	if err1 != nil || err2 != nil {
+		r.ViolationCase(c, "C15:no-error:interleaved", fmt.Sprintf("logger error with interleaved exchanges: %v / %v", err1, err2), witness)
+	}
+	// both messages are forwarded unchanged
+	cmp := func(name string, resp bool, method string, wa, wb func(*bytes.Buffer) error, s *msgx.Spec) {
+		var a, b bytes.Buffer
+		if err := wa(&a); err != nil {
+			inconc("serialising an unlogged twin failed: " + err.Error())
+			return
+		}
+		if err := wb(&b); err != nil {
+			r.ViolationCase(c, sig, name+": after logging, serialising the message fails: "+err.Error(), witness)
+			return
+		}
+		pa, ra, ea := msgx.ParsePrefix(a.Bytes(), resp, method)
+		pb, rb, eb := msgx.ParsePrefix(b.Bytes(), resp, method)
+		if ea != nil || !bytes.Equal(pa.Body, s.WireBody()) {
+			inconc(fmt.Sprintf("harness self-check failed on the unlogged twin (%v)", ea))
+			return
+		}
+		if eb != nil {
+			r.ViolationCase(c, sig, name+": the logged message does not serialise to a parseable message: "+eb.Error(), witness)
+		} else if d := cmpForwarded(pa, pb); d != "" || !bytes.Equal(ra, rb) {
+			r.ViolationCase(c, sig, name+": "+d, witness)
+		}
+		r.Count("interleaved_bytes_compared", int64(a.Len()))
+	}
+	cmp("exchange 1 response", true, "GET", func(w *bytes.Buffer) error { return res1A.Write(w) }, func(w *bytes.Buffer) error { return res1B.Write(w) }, s1)
+	if s2.Resp {
+		cmp("exchange 2 response", true, s2.Method, func(w *bytes.Buffer) error { return p2A.Write(w) }, func(w *bytes.Buffer) error { return p2B.Write(w) }, s2)
+	} else {
+		cmp("exchange 2 request", false, s2.Method, func(w *bytes.Buffer) error { return q2A.Write(w) }, func(w *bytes.Buffer) error { return q2B.Write(w) }, s2)
+	}
+	return false
+}
+
+var gateCfgs = []logCfg{{"har", "all"}, {"text", "h0d0"}, {"har", "optout"}, {"marbl", "-"}, {"text", "h0d1"}, {"har", "optin"}}
+
+func runGate(r *vh.Run, k int) {
+	total := r.Pick(240, 2400)
+	per := total / nSink
+	e := newEnv()
+	stuck := 0
+	for i := 0; i < per; i++ {
+		idx := k*per + i
+		c := gateCase{Kind: "c15g", Stream: "c15-gate", Idx: idx, Cfg: gateCfgs[idx%len(gateCfgs)]}
+		r.Case(c)
+		if interleaved(r, e, c) {
+			if stuck++; stuck >= 3 {
+				r.Count("interleaved_cases_not_run_after_3_stuck_verdicts", int64(per-i-1))
+				break
+			}
+		}
+	}
+}
+
+// ---------------------------------------------------------------------------
 
 func run(r *vh.Run, batch string) {
 	switch {
@@ -1681,6 +1940,7 @@ func run(r *vh.Run, batch string) {
 	case strings.HasPrefix(batch, "sink-"):
 		k, _ := strconv.Atoi(batch[5:])
 		runSink(r, k)
+		runGate(r, k)
 	case strings.HasPrefix(batch, "hist-race-"):
 		k, _ := strconv.Atoi(batch[10:])
 		runHist(r, k, true)
@@ -1700,6 +1960,10 @@ func replay(r *vh.Run, raw json.RawMessage) {
 		p := newProxyRun()
 		defer p.close()
 		p.one(r, c)
+	case c.Kind == "c15g":
+		var gc gateCase
+		json.Unmarshal(raw, &gc)
+		interleaved(r, newEnv(), gc)
 	case c.Kind == "c15s":
 		var sc sinkCase
 		json.Unmarshal(raw, &sc)
